@@ -480,6 +480,7 @@ class Receiver:
         _imports()
         self.res = res
         self.prop = prop
+        self.knobs = knobs
         self.seam = EntropySeam(knobs.get("entropy_seed", 1))
         tmod.secrets = self.seam
         self.clock = {"t": 1_700_000_000.0, "skew": 0.0, "reads": 0}
@@ -624,8 +625,10 @@ class Receiver:
                     self.res.fault("twin_watcher_delivery")
         cls = self.classify(b)
         key = self.pdu_key(b, cls)
-        b.target_radio_id = term
-        b.timeslot = ts
+        direct = bool(self.knobs.get("direct_terminal"))
+        if not direct:
+            b.target_radio_id = term
+            b.timeslot = ts
         tr = self.tracker(term, ts)
         type0 = tr.type.name if tr else "Idle"
         n0 = len(self.primary.ev)
@@ -635,7 +638,13 @@ class Receiver:
         sys.stdout = self.sink
         try:
             with self.wd:
-                out = self.watcher.process_burst(b)
+                if direct:
+                    # the application keeps the terminals itself and feeds a terminal / timeslot directly ("fed to a terminal/timeslot"): the slot is the
+                    # ARGUMENT of the call, the burst object is as the parser made it (its own timeslot attribute untouched)
+                    self.watcher.ensure_terminal(term)
+                    out = self.watcher.terminals[term].process_incoming_burst(burst=b, timeslot=ts)
+                else:
+                    out = self.watcher.process_burst(b)
         except Watchdog.Timeout:
             raised = "timeout"
         except BaseException as e:  # observers may raise BaseException subclasses (SystemExit, CancelledError): they must not escape either
